@@ -29,7 +29,19 @@ def run(c):
             raise vlib.Infra("generator output incomplete: %d pools, %d cases, %d states" %
                              (len(pool), len(cases), r.distinct))
         if c.thorough:
-            c.mc("TRCUpdate", "TRCUpdateMC.deep.cfg", workers=8, timeout=3000)   # in-model only
+            # depth 3 on the four update bases: checked in-model completely; every 23rd case (residue
+            # chosen by the seed) is added to the scenarios executed on the real code
+            cfg = open(vlib.SPEC + "/TRCUpdateMC.deep.cfg").read().replace("SampleRes = 0", "SampleRes = %d" % (c.seed % 23))
+            cfgp = c.scratch + "/deepseed.cfg"
+            open(cfgp, "w").write(cfg)
+            rd = c.mc("TRCUpdate", "TRCUpdateMC.deepseed.cfg", workers=8, timeout=3000,
+                      extra_files=[(cfgp, "TRCUpdateMC.deepseed.cfg")])
+            deep = _pki.tlc_json_lines(rd.out, "SCN")
+            if not deep:
+                raise vlib.Infra("deep generator produced no sampled case")
+            seen = set(cases)
+            cases += [x for x in deep if x not in seen]
+            c.notes.append("depth-3 cases: %d states checked in-model, %d sampled cases executed" % (rd.distinct, len(deep)))
         scn = c.scratch + "/scn.ndjson"
         _pki.write_lines(scn, ['{"pool":%s}' % pool[0]] + cases)
         c.run_driver(drv, ["-mode", "update", "-scn", scn, "-out", trace], timeout=1800)
@@ -46,7 +58,7 @@ def run(c):
     c.cov["traces_validated_against_impl"] += 1
     c.cov["evaluations"] += n - 1
     c.cov["distinct_nontrivial"] += distinct
-    c.cov["exhaustive"] = not c.replay
+    c.cov["exhaustive"] = not c.replay      # of the depth-2 space; depth 3 is sampled (thorough)
     c.cov["rule"] = ("one evaluation = one abstract (predecessor, successor payload, vote list, signer info set) "
                      "executed on DecodeSignedTRC + SignedTRC.Verify; non-trivial = accepted by the code (antecedent "
                      "of the only-if statement); distinct abstract cases; exhaustive = every case of the bounded TLC "
